@@ -185,6 +185,7 @@ type checkRun struct {
 	trustedRepo   []string
 	bounded       []boundedResult
 	conformance   *conformanceResult
+	canaries      []canaryResult
 }
 
 func selectObligations(fr *FuncResult, prop string) (sel []*Obligation, skipped int) {
@@ -342,6 +343,15 @@ func cmdCheck(args []string) int {
 			engineErr = true
 		}
 	}
+	if *tier == "thorough" || os.Getenv("GOCV_CANARIES") != "" {
+		run.canaries = runCanaries(*prop)
+		for _, c := range run.canaries {
+			if c.Result == "MISSED" {
+				fmt.Printf("CANARY-MISSED %s: the property-breaking edit is no longer caught by %s (expected a failing obligation matching %q)\n", c.Canary, c.Function, c.Expect)
+				engineErr = true
+			}
+		}
+	}
 	code := report(run, time.Since(t0).Seconds(), *verbose, *keep, engineErr)
 	return code
 }
@@ -438,6 +448,18 @@ func report(run *checkRun, wall float64, verbose, keep bool, engineErr bool) int
 	if len(run.bounded) > 0 {
 		fmt.Printf("bounded stand-ins (not proof): %d function(s), %d cases executed on the real code\n", len(run.bounded), boundedCases)
 	}
+	if len(run.canaries) > 0 {
+		caught, stale := 0, 0
+		for _, c := range run.canaries {
+			switch c.Result {
+			case "caught":
+				caught++
+			case "stale":
+				stale++
+			}
+		}
+		fmt.Printf("must-fail canaries: %d caught, %d missed, %d stale (patch no longer applies)\n", caught, len(run.canaries)-caught-stale, stale)
+	}
 	if run.conformance != nil {
 		fmt.Printf("conformance of assumed library models (tested, not proved): %d passed, %d failed\n", len(run.conformance.Passed), len(run.conformance.Failed))
 	}
@@ -531,6 +553,7 @@ func writeEvidence(run *checkRun, total, discharged, knownHits, violations int, 
 			"engine_warnings":          warnings,
 			"bounded_standins":         run.bounded,
 			"library_model_conformance": run.conformance,
+			"must_fail_canaries":        run.canaries,
 		},
 		"assumptions": assumptionsFor(run.prop, tb),
 	}
